@@ -106,6 +106,9 @@ def generate(rng):
                 b['d'] = b['d'][:room]
             tot += len(b['d'])
     scn['out_kind'] = rng.choice(['digits', 'digits', 'bytes', 'utf8'])
+    if not scn['logs'] and rng.random() < 0.3:
+        scn['late_log'] = True
+        scn['late_at'] = rng.choice([1, 2, 3])
     gen_eintr(rng, scn)
     return scn
 
@@ -270,6 +273,21 @@ def run(scn, prop=None):
             kwargs['input_filter'] = in_f
         if filt in ('out', 'both'):
             kwargs['output_filter'] = out_f
+        late = {'calls': [], 'log': None, 'from': None}
+        if scn.get('late_log') and not scn.get('logs'):
+            # the application switches a read log on from its output filter in the middle of the session (the log
+            # attributes are public and may be assigned at any time): everything from that chunk on belongs in it
+            base_out = out_f if filt in ('out', 'both') else (lambda b: b)
+
+            def out_late(b):
+                res_ = base_out(b)
+                late['calls'].append(res_)
+                if len(late['calls']) == int(scn.get('late_at', 2)) and late['log'] is None:
+                    late['log'] = SeqLog(ctr, 'logfile_read')
+                    late['from'] = len(late['calls']) - 1
+                    child.logfile_read = late['log']
+                return res_
+            kwargs['output_filter'] = out_late
         escape_character = None if esc is None else chr(esc)
         if scn.get('child_out') and any(st.get('rep') for st in scn['child_out']):
             if scn.get('in_cap', 4096) < 4096 or sum(len(b.get('d', '')) for b in scn.get('bursts', [])) > 3500:
@@ -318,7 +336,7 @@ def run(scn, prop=None):
         if res == 'ret':
             pend_b = pending.encode(enc or 'latin-1') if pending else b''
             want_disp = child_wrote
-            if 'output_filter' in kwargs:
+            if filt in ('out', 'both'):
                 # a filter sees reads of <= 1000 bytes; '0' -> 'oo' is chunk-independent
                 want_disp = out_f(child_wrote)
             want_disp = pend_b + want_disp
@@ -395,7 +413,7 @@ def run(scn, prop=None):
                     continue
                 if name == 'logfile_read':
                     text = st().join(ws)
-                    want = (out_f(child_wrote) if 'output_filter' in kwargs else child_wrote)[:len(disp) - len(pend_b)] if True else b''
+                    want = (out_f(child_wrote) if filt in ('out', 'both') else child_wrote)[:len(disp) - len(pend_b)] if True else b''
                     wantt = want if enc is None else codecs.getincrementaldecoder(enc)('replace').decode(want, False)
                     if text != wantt:
                         V('C11.interact_read', 'logfile_read during interact() differs from what was copied to the display', log=name)
@@ -409,6 +427,23 @@ def run(scn, prop=None):
                         fullt = full if enc is None else codecs.getincrementaldecoder(enc)('replace').decode(full, False)
                         if not (kdead and fullt.startswith(text) and len(text) >= len(wantt)):
                             V('C11.interact_send', 'logfile_send during interact() differs from what was forwarded to the child', log=name)
+        if late['log'] is not None and res in ('ret', 'HANG'):
+            if enc is None:
+                want_t = b''.join(late['calls'][late['from']:])
+            else:
+                # the decoder belongs to the session's output stream as a whole, not to the log: a character whose first
+                # bytes came before the log was attached is completed by the bytes that come after
+                dec_ = codecs.getincrementaldecoder(enc)('replace')
+                per_call = [dec_.decode(x, False) for x in late['calls']]
+                want_t = u''.join(per_call[late['from']:])
+            ws_ = late['log'].writes()
+            st_ = child.string_type
+            if any(type(x) is not st_ for x in ws_):
+                V('C11.interact_type', 'a read log attached during interact() received %s' % sorted(set(type(x).__name__ for x in ws_)))
+            elif st_().join(ws_) != want_t:
+                V('C11.interact_late_log', 'a read log attached from the output filter during interact() holds %d characters, %d were '
+                  'copied to the display from that chunk on' % (len(st_().join(ws_)), len(want_t)))
+            r.w.probe('log_attached_during_interact')
         # ---- promptness: once the escape character has been typed, the session ends after a bounded number of further reads
         # of child output, however much output is still coming (a flooding child must not starve the keyboard)
         if res == 'ret' and esc is not None and typed_at and not kdead:
